@@ -287,6 +287,19 @@ func runBatch(eng Engine, seed uint64, checks int, tier string, skip int, isolat
 		}
 	}
 	tb := &rtb{name: "ottosim_" + eng.Name()}
+	if pf, ok := eng.(interface {
+		Preflight(*Stats) (*Violation, interface{})
+	}); ok && os.Getenv("VERIF_PREFLIGHT") == "1" {
+		if v, rc := pf.Preflight(st); v != nil {
+			if kf := isKnown(v); kf != nil {
+				st.Known[kf.Property+" "+kf.Key]++
+			} else {
+				res.Violation, res.Case = v, rc
+				st.Freeze()
+				return res
+			}
+		}
+	}
 	func() {
 		defer func() {
 			if x := recover(); x != nil {
@@ -364,6 +377,9 @@ func main() {
 		}
 		eng.Init()
 		seed, _ := strconv.ParseUint(a["seed"], 10, 64)
+		if a["preflight"] == "true" {
+			os.Setenv("VERIF_PREFLIGHT", "1")
+		}
 		if d := a["deadline"]; d != "" {
 			ms, _ := strconv.ParseInt(d, 10, 64)
 			batchDeadline = time.UnixMilli(ms)
@@ -563,6 +579,9 @@ func checkMain(a map[string]string) int {
 				out := filepath.Join(scratch, fmt.Sprintf("b%d.json", bi))
 				cur := filepath.Join(scratch, fmt.Sprintf("b%d.cur.json", bi))
 				args := []string{"batch", "--engine", cfg.engine, "--seed", strconv.FormatUint(bseed, 10), "--checks", strconv.Itoa(checks), "--tier", tier, "--out", out, "--cur", cur, "--deadline", strconv.FormatInt(deadline.UnixMilli(), 10)}
+				if bi == 0 {
+					args = append(args, "--preflight")
+				}
 				br, code, stderr := runChild(self, args, out)
 				if br == nil {
 					// the child died: attribute to the case it was executing, then minimise in isolation
